@@ -32,7 +32,7 @@ type PubSub[T any] struct {
 func (o *PubSub[T]) Pub(ev T) {
 	o.mutex.RLock()
 	for _, sub := range o.subs {
-		go o.send(ev, sub, o.PubTimeoutAfter, o.OnPubTimeout)
+		go o.sendAsync(ev, sub, o.PubTimeoutAfter, o.OnPubTimeout)
 	}
 	o.mutex.RUnlock()
 }
@@ -44,7 +44,7 @@ func (o *PubSub[T]) PubSlice(evs []T) {
 	o.mutex.RLock()
 	for _, ev := range evs {
 		for _, sub := range o.subs {
-			go o.send(ev, sub, o.PubTimeoutAfter, o.OnPubTimeout)
+			go o.sendAsync(ev, sub, o.PubTimeoutAfter, o.OnPubTimeout)
 		}
 	}
 	o.mutex.RUnlock()
@@ -59,8 +59,8 @@ func (o *PubSub[T]) PubWait(ev T) {
 	for _, sub := range o.subs {
 		go o.sendWaitGroup(ev, sub, o.PubTimeoutAfter, o.OnPubTimeout, &wg)
 	}
-	o.mutex.RUnlock()
 	wg.Wait()
+	o.mutex.RUnlock()
 }
 
 // PubSliceWait blocks while sending a slice of events to all subscriptions in
@@ -75,8 +75,8 @@ func (o *PubSub[T]) PubSliceWait(evs []T) {
 			go o.sendWaitGroup(ev, sub, o.PubTimeoutAfter, o.OnPubTimeout, &wg)
 		}
 	}
-	o.mutex.RUnlock()
 	wg.Wait()
+	o.mutex.RUnlock()
 }
 
 // PubSync blocks while sending the event syncronously to all subscriptions
@@ -108,6 +108,18 @@ func (o *PubSub[T]) send(ev T, sub chan T, timeout time.Duration, onTimeout func
 	if !SendTimeout(sub, ev, timeout) && onTimeout != nil {
 		onTimeout(ev)
 	}
+}
+
+// sendAsync is the body of the goroutines started by Pub and PubSlice. It holds
+// the read lock while sending, so that Unsub and UnsubAll cannot close the
+// channel under it, and skips a channel that has been unsubscribed meanwhile.
+func (o *PubSub[T]) sendAsync(ev T, sub chan T, timeout time.Duration, onTimeout func(T)) {
+	o.mutex.RLock()
+	defer o.mutex.RUnlock()
+	if o.subIndex(sub) == -1 {
+		return
+	}
+	o.send(ev, sub, timeout, onTimeout)
 }
 
 func (o *PubSub[T]) sendWaitGroup(ev T, sub chan T, timeout time.Duration, onTimeout func(T), wg *sync.WaitGroup) {
